@@ -2,7 +2,9 @@ package main
 
 import (
 	"fmt"
+	"go/token"
 	"go/types"
+	"strings"
 
 	"golang.org/x/tools/go/ssa"
 )
@@ -14,6 +16,7 @@ func init() {
 		explanation: "Decided (structural, for every decodable request message): " +
 			"C14.wirenil — nil-ability of protobuf message pointers is computed from the generated structs (singular message-typed fields of messages may be nil after decoding; oneof wrapper members and repeated elements are allocated by the decoder) and propagated through parameters to a fixpoint over module call sites; in everything reachable from the gRPC handler every field access through a possibly-nil message pointer is dominated by a nil test (generated nil-safe getters count as guards); " +
 			"C14.exprnil — the protobuf-to-expression conversion never returns a nil Expression together with a nil error (every successful return yields a freshly allocated node, and the default case of the oneof switch is an error), and a converted operand is used only where its conversion error is known to be nil, so Execute never calls a method on a nil Expression that came from the wire; " +
+			"C14.slicecap — refutation of re-slicings in the evaluation code: where the capacity is evident (fixed array, make) and the bound is linear in one length, no length allowed by the dominating tests makes the bound exceed the capacity; " +
 			"C14.bounds — every slice indexing in the evaluation code reachable from Execute is a range-loop index or is dominated by a length test (operand lists can be empty on the wire); " +
 			"C14.errors — conversion and execution errors (unknown columns included) are returned from the handler as RPC errors, with a nil response. " +
 			"NOT decided: stack depth for deeply nested expressions (bounded by protobuf-go's recursion limit and gRPC's message size limit, trusted); that the server keeps answering correctly afterwards beyond the read lock being released by its defer (C04).",
@@ -256,6 +259,7 @@ func runC14(c *Ctx) {
 		})
 	}
 	c.r.Stats["evaluation_slice_indexings"] = nIdx
+	c14SliceCap(c)
 
 	// ---- errors in the handler
 	sq := c.a.ServerQuery
@@ -307,4 +311,242 @@ func isSortLess(fn *ssa.Function) bool {
 		}
 	})
 	return found
+}
+
+// ---- slice bounds by refutation -------------------------------------------------------------------------------
+//
+// C14.slicecap: a re-slicing `x[:h]` panics when h exceeds cap(x). For re-slicings in the evaluation code whose
+// capacity is known (a fixed-size array, or make with a computed size) and whose bound is a linear function of one
+// length (len(operand keys), say), the rule looks for a length inside the interval allowed by the dominating tests for
+// which the bound exceeds the capacity, and reports it. It is a refutation: shapes it cannot express are skipped, not
+// reported.
+
+type linF struct {
+	atom string // "" = constant
+	a, b int64  // a*atom + b
+}
+
+func linForm(v ssa.Value, depth int) (linF, bool) {
+	if depth > 8 {
+		return linF{}, false
+	}
+	v = peelConv(v)
+	if k, ok := constInt(v); ok {
+		return linF{"", 0, k}, true
+	}
+	switch x := v.(type) {
+	case *ssa.Call:
+		if b, ok := x.Call.Value.(*ssa.Builtin); ok && b.Name() == "len" {
+			return linF{fmt.Sprintf("len:%p", peelConv(x.Call.Args[0])), 1, 0}, true
+		}
+	case *ssa.BinOp:
+		l, ok1 := linForm(x.X, depth+1)
+		r, ok2 := linForm(x.Y, depth+1)
+		if !ok1 || !ok2 {
+			break
+		}
+		switch x.Op {
+		case token.ADD, token.SUB:
+			if l.atom != "" && r.atom != "" && l.atom != r.atom {
+				break
+			}
+			at := l.atom
+			if at == "" {
+				at = r.atom
+			}
+			if x.Op == token.ADD {
+				return linF{at, l.a + r.a, l.b + r.b}, true
+			}
+			return linF{at, l.a - r.a, l.b - r.b}, true
+		case token.MUL:
+			if l.atom == "" {
+				return linF{r.atom, l.b * r.a, l.b * r.b}, true
+			}
+			if r.atom == "" {
+				return linF{l.atom, r.b * l.a, r.b * l.b}, true
+			}
+		case token.SHL:
+			if r.atom == "" && r.b >= 0 && r.b < 32 {
+				m := int64(1) << uint(r.b)
+				return linF{l.atom, m * l.a, m * l.b}, true
+			}
+		}
+	}
+	return linF{fmt.Sprintf("v:%p", v), 1, 0}, true
+}
+
+// capForm: the capacity of slice/array value x as a linear form, if it is evident.
+func capForm(x ssa.Value) (linF, bool) {
+	switch y := x.(type) {
+	case *ssa.Alloc:
+		if n, ok := arrayLen(y.Type()); ok {
+			return linF{"", 0, n}, true
+		}
+	case *ssa.Slice:
+		if y.Max != nil {
+			return linF{}, false
+		}
+		if al, ok := y.X.(*ssa.Alloc); ok {
+			if n, ok := arrayLen(al.Type()); ok {
+				lo := int64(0)
+				if y.Low != nil {
+					k, isK := constInt(y.Low)
+					if !isK {
+						return linF{}, false
+					}
+					lo = k
+				}
+				return linF{"", 0, n - lo}, true
+			}
+		}
+	case *ssa.MakeSlice:
+		return linForm(y.Cap, 0)
+	}
+	return linF{}, false
+}
+
+func c14SliceCap(c *Ctx) {
+	const rule = "C14.slicecap"
+	ere := c.w.reach(c.a.Execute)
+	examined, n := 0, 0
+	for _, fn := range ere.sorted() {
+		if c.w.pkgPathOf(fn) != pkgRoot {
+			continue
+		}
+		allInstrs(fn, func(i ssa.Instruction) {
+			sl, ok := i.(*ssa.Slice)
+			if !ok || sl.High == nil {
+				return
+			}
+			high, ok := linForm(sl.High, 0)
+			if !ok {
+				return
+			}
+			// candidates: (operand, facts that hold when it is the operand)
+			type cand struct {
+				x     ssa.Value
+				facts []cmp
+			}
+			var cands []cand
+			if phi, isPhi := sl.X.(*ssa.Phi); isPhi {
+				for k, e := range phi.Edges {
+					cands = append(cands, cand{e, append(cmpsOnEdge(phi.Block().Preds[k], phi.Block()), cmpsAt(sl)...)})
+				}
+			} else {
+				cands = append(cands, cand{sl.X, cmpsAt(sl)})
+			}
+			for k, cd := range cands {
+				cp, ok := capForm(cd.x)
+				if !ok {
+					continue
+				}
+				if cp.atom != "" && high.atom != "" && cp.atom != high.atom {
+					continue
+				}
+				examined++
+				atom := high.atom
+				if atom == "" {
+					atom = cp.atom
+				}
+				// interval of the atom
+				lo, hi := int64(0), int64(1)<<40
+				hiKnown := false
+				if atom == "" {
+					lo, hi, hiKnown = 0, 0, true
+				} else if !strings.HasPrefix(atom, "len:") {
+					lo = -(int64(1) << 40)
+				}
+				for _, cm := range cd.facts {
+					if cm.Y == nil {
+						continue
+					}
+					l, ok1 := linForm(cm.X, 0)
+					r, ok2 := linForm(cm.Y, 0)
+					if !ok1 || !ok2 {
+						continue
+					}
+					if (l.atom != "" && l.atom != atom) || (r.atom != "" && r.atom != atom) {
+						continue
+					}
+					// p*atom + q  op  0
+					p, q := l.a-r.a, l.b-r.b
+					if p == 0 {
+						continue
+					}
+					op := cm.Op
+					if p < 0 {
+						p, q = -p, -q
+						op = swapOp(op)
+					}
+					// p*atom op -q, p > 0
+					switch op {
+					case token.LSS: // atom < -q/p
+						u := floorDiv(-q-1, p)
+						if u < hi {
+							hi, hiKnown = u, true
+						}
+					case token.LEQ:
+						u := floorDiv(-q, p)
+						if u < hi {
+							hi, hiKnown = u, true
+						}
+					case token.GTR:
+						l2 := floorDiv(-q, p) + 1
+						if l2 > lo {
+							lo = l2
+						}
+					case token.GEQ:
+						l2 := -floorDiv(q, p)
+						if l2 > lo {
+							lo = l2
+						}
+					case token.EQL:
+						if (-q)%p == 0 {
+							lo, hi, hiKnown = -q/p, -q/p, true
+						}
+					}
+				}
+				if lo > hi {
+					continue // infeasible
+				}
+				d1, d0 := high.a-cp.a, high.b-cp.b
+				bad, at := false, int64(0)
+				switch {
+				case d1 == 0:
+					bad = d0 > 0
+					at = lo
+				case d1 > 0:
+					if hiKnown && d1*hi+d0 > 0 {
+						bad, at = true, hi
+					}
+				default:
+					if d1*lo+d0 > 0 {
+						bad, at = true, lo
+					}
+				}
+				n++
+				key := fmt.Sprintf("%s: reslice#%d", safeFname(fn), n)
+				if len(cands) > 1 {
+					key += fmt.Sprintf(" (operand %d)", k+1)
+				}
+				if bad {
+					c.r.bad(rule, key, fmt.Sprintf("a slice is cut to a length that can exceed its capacity: for a length of %d the bound is %d but the capacity only %d — the evaluation panics (slice bounds out of range) and takes the server down", at, high.a*at+high.b, cp.a*at+cp.b), []string{c.w.ipos(sl)})
+				} else {
+					c.r.ok(rule, key, "bound never exceeds the capacity within the lengths the dominating tests allow", c.w.ipos(sl))
+				}
+			}
+		})
+	}
+	c.r.Stats["reslicings_examined"] = examined
+	if n == 0 {
+		c.r.ok(rule, "evaluation code", "no re-slicing with an evident capacity and a linear bound in the evaluation code")
+	}
+}
+
+func floorDiv(a, b int64) int64 {
+	q := a / b
+	if (a%b != 0) && ((a < 0) != (b < 0)) {
+		q--
+	}
+	return q
 }
